@@ -10,6 +10,9 @@ def family(pid):
     import p_pred
     if hasattr(p_pred, pid):
         return getattr(p_pred, pid)()
+    import p_rules
+    if hasattr(p_rules, pid):
+        return getattr(p_rules, pid)()
     import p_registry
     if hasattr(p_registry, pid):
         return getattr(p_registry, pid)()
